@@ -87,7 +87,12 @@ theorem lookup_live_eq {s s' : St} (h : s'.live = s.live) (k : Nat) : s'.lookup 
 
 /-! ### the invariant -/
 
-def alignedCap (c : Nat) : Prop := maxAligned < c ∨ ∃ i, i < nClasses ∧ c = classSize i
+/-- capacities the aligned allocator makes itself: above the threshold, or a class size -/
+def alignedCap0 (c : Nat) : Prop := maxAligned < c ∨ ∃ i, i < nClasses ∧ c = classSize i
+
+/-- capacities that may occur in the aligned allocator's heap: its own, and those of *foreign* buffers (not handed out
+    by the allocator, e.g. the empty slice passed to `Append`) that `Free` ignores: zero, or not a multiple of 32 -/
+def alignedCap (c : Nat) : Prop := alignedCap0 c ∨ c = 0 ∨ c % minAligned ≠ 0
 
 /-- region `rid` may be written on behalf of handle name `h`: nobody else owns it -/
 def scratch (h : Nat) (s : St) (rid : Nat) : Prop :=
